@@ -16,6 +16,9 @@
 (*   hook gate.fire                     GateFire                           *)
 (*   hook open.enter                    TableGameOpen                      *)
 (*   hook open.retry                    OpenRetry                          *)
+(*   hook open.swap                     OpenSwap  (the model runs with     *)
+(*                                      KF_CloneSwap = TRUE: the code as   *)
+(*                                      it is, see known_findings.json)    *)
 (*   first cb:updated carrying the hand Publish                            *)
 (*   hook continue.reset                SettleAndReset(who kept chips)     *)
 (*   hook continue.fire                 ContinueFire                       *)
@@ -60,6 +63,7 @@ Kind(t) ==
     [] t.ev = "hook" /\ t.a.kind = "open.retry" ->
          (IF l < Len(Trace) /\ Trace[l + 1].ev = "parked" /\ Trace[l + 1].a.kind \in RetryKeys THEN "skip" ELSE "retry")
     [] t.ev = "released" /\ t.a.kind \in RetryKeys -> "retry"
+    [] t.ev = "hook" /\ t.a.kind = "open.swap" -> "swap"
     [] t.ev = "hook" /\ t.a.kind = "continue.reset" -> "settle"
     [] t.ev = "hook" /\ t.a.kind = "continue.fire" -> "continue"
     [] t.ev = "cb:updated" /\ Len(t.st.hand) = 1 /\ hand = "unpublished" -> "publish"
@@ -71,20 +75,20 @@ Keep == UNCHANGED vars /\ bad' = bad
 
 Init0 == /\ status = "created" /\ gc = 0 /\ hand = "none" /\ gblind = 0 /\ blind = 1 /\ released = FALSE /\ gate = NoGate /\ opens = 0
          /\ cont = FALSE /\ chips = [p \in Players |-> FALSE] /\ inn = [p \in Players |-> FALSE] /\ dealt = {} /\ survivors = {}
-         /\ ext = FALSE /\ closedBetween = FALSE /\ opened2 = FALSE /\ retry = 0
+         /\ ext = FALSE /\ closedBetween = FALSE /\ opened2 = FALSE /\ retry = 0 /\ win = NoWin
 TInit == Init0 /\ l = 1 /\ phase = "sync" /\ bad = TRUE
 
 Create(t) == /\ status' = IF t.a.blind[1] = -1 THEN "pausing" ELSE "created"
              /\ gc' = 0 /\ hand' = "none" /\ gblind' = 0 /\ blind' = t.a.blind[1] /\ released' = FALSE /\ gate' = NoGate /\ opens' = 0
              /\ cont' = FALSE /\ chips' = ObsChips(t.st) /\ inn' = ObsInn(t.st) /\ dealt' = {} /\ survivors' = {}
-             /\ ext' = FALSE /\ closedBetween' = FALSE /\ opened2' = FALSE /\ retry' = 0 /\ bad' = FALSE
+             /\ ext' = FALSE /\ closedBetween' = FALSE /\ opened2' = FALSE /\ retry' = 0 /\ win' = NoWin /\ bad' = FALSE
 
 (* phase "sync": the environment part of the model is taken from the recorded line *)
 Sync == /\ phase = "sync" /\ l <= Len(Trace) /\ phase' = "act" /\ l' = l /\ bad' = bad
         /\ IF ~bad /\ Usable(Trace[l]) /\ Kind(Trace[l]) \notin {"scenario", "create", "skip"}
            THEN /\ chips' = (IF Kind(Trace[l]) = "settle" THEN chips ELSE ObsChips(Trace[l].st))     \* (SettleAndReset writes chips itself)
                 /\ inn' = ObsInn(Trace[l].st)
-                /\ UNCHANGED <<status, gc, hand, gblind, blind, released, gate, opens, cont, dealt, survivors, ext, closedBetween, opened2, retry>>
+                /\ UNCHANGED <<status, gc, hand, gblind, blind, released, gate, opens, cont, dealt, survivors, ext, closedBetween, opened2, retry, win>>
            ELSE UNCHANGED vars
 
 Compare(t) ==
@@ -95,7 +99,7 @@ Compare(t) ==
 (* GateFire without the model's bound on callbacks in flight *)
 GateFireT == /\ gate' = [gate EXCEPT !.armed = FALSE]
              /\ opens' = IF Cardinality(gate.parts) > 1 THEN opens + 1 ELSE opens
-             /\ UNCHANGED <<status, gc, hand, gblind, blind, released, cont, chips, inn, dealt, survivors, ext, closedBetween, opened2, retry>>
+             /\ UNCHANGED <<status, gc, hand, gblind, blind, released, cont, chips, inn, dealt, survivors, ext, closedBetween, opened2, retry, win>>
 
 Act ==
   /\ phase = "act" /\ l <= Len(Trace) /\ phase' = "sync" /\ l' = l + 1
@@ -111,6 +115,7 @@ Act ==
      ELSE IF k = "gatefire" THEN (IF gate.armed THEN GateFireT /\ bad' = bad ELSE Drift("gate.fire but no gate armed", gate, t.st.gate))
      ELSE IF k = "open" THEN (IF opens > 0 /\ retry = 0 THEN TableGameOpen /\ bad' = bad ELSE Drift("tableGameOpen not enabled", <<opens, retry>>, 0))
      ELSE IF k = "retry" THEN (IF retry > 0 THEN OpenRetry /\ bad' = bad ELSE Drift("open.retry but the model is not retrying", retry, 0))
+     ELSE IF k = "swap" THEN (IF win.on THEN OpenSwap /\ bad' = bad ELSE Drift("open.swap without a prepared clone", win, 0))
      ELSE IF k = "publish" THEN Publish /\ bad' = bad
      ELSE IF k = "settle" THEN
           (IF hand = "live"
